@@ -707,6 +707,56 @@ def run_gzsample(case):
     return {'a': a, 'b': b}
 
 
+def run_cdx_case(case):
+    """the CDX line that follows an append cannot be written (its path has become a directory: open(..., 'a') fails with an
+    OSError) - the append itself went through.  No fault controller: only the real recorder and the real file system."""
+    d = tempfile.mkdtemp(prefix='c06x-')
+    try:
+        prefix = os.path.join(d, 'out')
+        params = R.WARCRecorderParams(compress=case['compress'], log=False, temp_dir=d, cdx=True,
+                                      digests=case.get('digests', True))
+        rec = R.WARCRecorder(prefix, params)
+        for i, (sz, kind) in enumerate(case['prior']):
+            r0 = make_record(i + 1, sz, kind)
+            rec.set_length_and_maybe_checksums(r0)
+            rec.write_record(r0)
+        A = rec._warc_filename
+        cdx = [os.path.join(d, f) for f in os.listdir(d) if f.endswith('.cdx')]
+        before = io.open(A, 'rb').read()
+        newrec = make_record(99, case['new'][0], case['new'][1])
+        # only HTTP response records are indexed
+        newrec.fields['WARC-Type'] = 'response'
+        newrec.fields['Content-Type'] = 'application/http; msgtype=response'
+        payload = newrec.block_file.getvalue()
+        newrec.block_file = io.BytesIO(b'HTTP/1.1 200 OK\r\nContent-Type: text/plain\r\nContent-Length: %d\r\n\r\n' % len(payload) + payload)
+        rec.set_length_and_maybe_checksums(newrec)
+        for c in cdx:
+            os.remove(c)
+            os.mkdir(c)
+        try:
+            rec.write_record(newrec)
+            outcome = 'completed'
+        except OSError as e:
+            outcome = 'oserror'
+        except Exception as e:       # noqa
+            outcome = 'other:' + type(e).__name__
+        after = io.open(A, 'rb').read()
+        left = sorted(f for f in os.listdir(d) if f.endswith('-wpullinc'))
+        for c in cdx:
+            os.rmdir(c)
+        try:
+            R.WARCRecorder(prefix, R.WARCRecorderParams(compress=case['compress'], log=False, temp_dir=d, appending=True))
+            refuses = False
+        except OSError:
+            refuses = True
+        except Exception as e:       # noqa
+            refuses = 'other:' + type(e).__name__
+        return {'outcome': outcome, 'cdx_files': len(cdx), 'before': before.hex(), 'after': after.hex(), 'journals': left,
+                'refuses': refuses}
+    finally:
+        shutil.rmtree(d, ignore_errors=True)
+
+
 def main():
     req = json.load(sys.stdin)
     install()
@@ -718,6 +768,8 @@ def main():
             res.append(run_history_case(case))
         elif case.get('kind') == 'gzsample':
             res.append(run_gzsample(case))
+        elif case.get('kind') == 'cdx':
+            res.append(run_cdx_case(case))
         else:
             res.append(run_case(case))
     print(json.dumps({'results': res}))
